@@ -197,7 +197,14 @@ func execAddr(c Case) string {
 	switch c.Op {
 	case "addr": // addr <kind> <net> <payload>
 		net := netIdx(a[1])
-		ad, err := construct(a[0], net, unhx(a[2]))
+		// the constructors get their argument as a slice with spare capacity (a script cut out of a larger buffer):
+		// they must not write to it, not even behind its end
+		orig := unhx(a[2])
+		arg := withSpare(orig, 64)
+		ad, err := construct(a[0], net, arg)
+		if !unchanged(arg, orig) {
+			return "ARGUMENT-MODIFIED:" + hx(arg[:cap(arg)])
+		}
 		if err != nil || isNilAddr(ad) {
 			return "ctorerr"
 		}
@@ -219,6 +226,7 @@ func execAddr(c Case) string {
 			}
 			return addrKind(x) + "," + hs(x.EncodeAddress()) + "," + netBits(x)
 		}
+		before := tok(ad, nil)
 		s1, e1 := bchutil.ConvertCashToSlpAddress(ad, tn)
 		var s2 bchutil.Address
 		e2 := e1
@@ -226,7 +234,13 @@ func execAddr(c Case) string {
 			s2, e2 = bchutil.ConvertSlpToCashAddress(s1, tn)
 		}
 		s3, e3 := bchutil.ConvertSlpToCashAddress(ad, tn)
-		return tok(s1, e1) + " " + tok(s2, e2) + " " + tok(s3, e3)
+		res := tok(s1, e1) + " " + tok(s2, e2) + " " + tok(s3, e3)
+		// the conversions return NEW addresses: the argument (and the first result, converted back above) still are
+		// what they were
+		if tok(ad, nil) != before || (e1 == nil && tok(s1, nil) != strings.Split(res, " ")[0]) {
+			return res + " ARGUMENT-MODIFIED"
+		}
+		return res
 	case "pk2pkh": // pk2pkh <net> <serialized pubkey>
 		pk, err := bchutil.NewAddressPubKey(unhx(a[1]), netIdx(a[0]))
 		if err != nil {
@@ -735,6 +749,15 @@ func genC02(r *Rng, tier string, emit func(Case)) {
 		pl := r.Bytes(r.Pick(20, 20, 20, 0, 1, 19, 21, 32, r.Intn(41)))
 		ls := base58.CheckEncode(pl, ver)
 		e("dec", "legacy", itoa(ni), hs(ls))
+		if i%4 == 0 {
+			// valid strings of every format wrapped in white space / a NUL byte: not the canonical string, rejected
+			for _, w := range []string{" ", "\t", "\n", "\r\n", "\x00"} {
+				for _, v := range []string{ls, s, pre + ":" + s} {
+					e("dec", "wrapped", itoa(ni), hs(w+v))
+					e("dec", "wrapped", itoa(ni), hs(v+w))
+				}
+			}
+		}
 		lb := base58.Decode(ls)
 		lb[r.Intn(len(lb))] ^= byte(1 << uint(r.Intn(8)))
 		e("dec", "legacybad", itoa(ni), hs(base58.Encode(lb)))
